@@ -560,6 +560,24 @@ Proof.
   unfold x_is. destruct (so_x o) as [v|]; [|discriminate]. intro H. apply kval_eqb_eq in H. congruence.
 Qed.
 
+Lemma try_kf_kf k x s o fx r : try_kf k x s o fx = Some r -> exists id m, r = (VKf id, m).
+Proof.
+  unfold try_kf. destruct (kf_class fx k x s) as [id|]; [|discriminate].
+  destruct (mech_step fx k x s) as [[fin pat]|]; [|discriminate].
+  destruct (resync o k x) as [x'|]; [|discriminate].
+  destruct (andb _ _); [|discriminate]. intro Hr. injection Hr as <-. eauto.
+Qed.
+
+Lemma via_kf_not_benign k x s o exp why v nx : benign v -> via_kf k x s o exp why = (v, nx) -> False.
+Proof.
+  intros Hb E. unfold via_kf in E.
+  destruct (try_kf k x s o false) as [r|] eqn:E1.
+  - destruct (try_kf_kf _ _ _ _ _ _ E1) as (id & m & ->). injection E as <- _. exact Hb.
+  - destruct (try_kf k x s o true) as [r|] eqn:E2.
+    + destruct (try_kf_kf _ _ _ _ _ _ E2) as (id & m & ->). injection E as <- _. exact Hb.
+    + injection E as <- _. exact Hb.
+Qed.
+
 Lemma judge_step_sound k x s o v nx :
   judge_step k x s o = (v, nx) -> benign v ->
   match s with
@@ -581,17 +599,11 @@ Proof.
   - destruct (spec_step k x (SAsg op t src)) as [d| |w].
     + destruct (andb (is_val (so_res o)) (x_is o k (mrows x) (mcols x) d)) eqn:C.
       * injection E as <- <-. apply andb_prop in C as [C1 C2]. apply x_is_sound in C2. auto.
-      * exfalso. destruct (kf_class k x (SAsg op t src)); [|injection E as <- _; exact Hb].
-        destruct (mech_step k x (SAsg op t src)) as [[fin pat]|]; [|injection E as <- _; exact Hb].
-        destruct (resync o k x); [|injection E as <- _; exact Hb].
-        destruct (andb (if fin then _ else _) _); injection E as <- _; exact Hb.
+      * exfalso. eapply via_kf_not_benign; eassumption.
     + destruct (andb (is_err (so_res o)) (x_is o k (mrows x) (mcols x) (mdata x))) eqn:C.
       * injection E as <- <-. apply andb_prop in C as [C1 C2]. apply x_is_sound in C2.
         rewrite mat_eta in C2. auto.
-      * exfalso. destruct (kf_class k x (SAsg op t src)); [|injection E as <- _; exact Hb].
-        destruct (mech_step k x (SAsg op t src)) as [[fin pat]|]; [|injection E as <- _; exact Hb].
-        destruct (resync o k x); [|injection E as <- _; exact Hb].
-        destruct (andb (if fin then _ else _) _); injection E as <- _; exact Hb.
+      * exfalso. eapply via_kf_not_benign; eassumption.
     + injection E as _ <-. reflexivity.
   - destruct (spec_read x t) as [es|].
     + destruct (x_is o k (mrows x) (mcols x) (mdata x)) eqn:C; cbn [negb] in E.
@@ -666,10 +678,10 @@ Qed.
    property demands. *)
 Definition refutes (id : String.string) (w : String.string * mat sx * stmt) : Prop :=
   let '(k, x, s) := w in
-  wf_mat x /\ kf_class k x s = Some id /\
+  wf_mat x /\ kf_class false k x s = Some id /\
   match spec_step k x s with
-  | OkNew d => mech_step k x s <> Some (true, map Some d)
-  | MustErr => mech_step k x s <> Some (false, map Some (mdata x))
+  | OkNew d => mech_step false k x s <> Some (true, map Some d)
+  | MustErr => mech_step false k x s <> Some (false, map Some (mdata x))
   | NotFixed _ => False
   end.
 
@@ -687,20 +699,20 @@ Lemma refuted_not_implemented : refutes id_not_implemented w_not_implemented. Pr
 (* what exactly goes wrong on the witnesses (expected by the property / done by the model of mech) *)
 Lemma witness_values :
   (let '(k, x, s) := w_opassign_scalar in
-   spec_step k x s = OkNew (zs [6; 2; 3]%Z) /\ mech_step k x s = Some (true, map Some (zs [5; 2; 3]%Z))) /\
+   spec_step k x s = OkNew (zs [6; 2; 3]%Z) /\ mech_step false k x s = Some (true, map Some (zs [5; 2; 3]%Z))) /\
   (let '(k, x, s) := w_partial_write in
-   spec_step k x s = MustErr /\ mech_step k x s = Some (false, map Some (zs [7; 3; 3]%Z))) /\
+   spec_step k x s = MustErr /\ mech_step false k x s = Some (false, map Some (zs [7; 3; 3]%Z))) /\
   (let '(k, x, s) := w_whole_short in
-   spec_step k x s = MustErr /\ mech_step k x s = Some (true, map Some (zs [10; 10; 10; 9]%Z))) /\
+   spec_step k x s = MustErr /\ mech_step false k x s = Some (true, map Some (zs [10; 10; 10; 9]%Z))) /\
   (let '(k, x, s) := w_mask_rows_all in
    spec_step k x s = OkNew (zs [1; 18; 2; 18; 3; 18]%Z) /\
-   mech_step k x s = Some (true, map Some (zs [18; 4; 18; 5; 18; 6]%Z))) /\
+   mech_step false k x s = Some (true, map Some (zs [18; 4; 18; 5; 18; 6]%Z))) /\
   (let '(k, x, s) := w_mask_vector in
-   spec_step k x s = OkNew (zs [50; 2; 3; 60]%Z) /\ mech_step k x s = Some (false, map Some (zs [50; 2; 3; 4]%Z))) /\
+   spec_step k x s = OkNew (zs [50; 2; 3; 60]%Z) /\ mech_step false k x s = Some (false, map Some (zs [50; 2; 3; 4]%Z))) /\
   (let '(k, x, s) := w_div_all in
-   spec_step k x s = OkNew (zs [4; 3; 4]%Z) /\ mech_step k x s = Some (true, map Some (zs [4; 3; 2]%Z))) /\
+   spec_step k x s = OkNew (zs [4; 3; 4]%Z) /\ mech_step false k x s = Some (true, map Some (zs [4; 3; 2]%Z))) /\
   (let '(k, x, s) := w_not_implemented in
-   spec_step k x s = OkNew (zs [1; 2; 8; 4]%Z) /\ mech_step k x s = Some (false, map Some (zs [1; 2; 3; 4]%Z))).
+   spec_step k x s = OkNew (zs [1; 2; 8; 4]%Z) /\ mech_step false k x s = Some (false, map Some (zs [1; 2; 3; 4]%Z))).
 Proof. vm_compute. repeat split. Qed.
 
 (* ================================================================== *)
